@@ -26,6 +26,8 @@ def generate(rng, tier, idx):
         d = {"op": "dump", "path": path}
         if rng.random() < 0.6:
             d["main_variant"] = pick(rng, keys)
+        if rng.random() < 0.2:
+            d["to"] = "handle"
         ops.append(d)
         r = rng.random()
         if r < 0.3:
